@@ -169,13 +169,21 @@ def check(ctx):
             S = g.at(b)
             ok, w = M.all_disj(S, EXP, {True})
             args = [tb.joperand(a) for a in c["args"]]
+            def variant_in(fs, a):
+                """the variant passed: a constant, or a variable whose variant is known in this path class (`let next = match .. {..}`)"""
+                if a[0] == "agg":
+                    return a[2]
+                vs_ = fs.get(("discr", strip_refs(a)))
+                return next(iter(vs_[1])) if vs_ is not None and vs_[0] == "in" and len(vs_[1]) == 1 else "?"
             tgt = args[2][2] if args[2][0] == "agg" else "?"
-            dg = args[1][2] if args[1][0] == "agg" else "?"
             for fs in S:
+                tgt_fs, dg = variant_in(fs, args[2]), variant_in(fs, args[1])
+                if tgt == "?" and tgt_fs != "?":
+                    tgt = "(per path)"
                 for k_, vs in fs.items():
                     if ATT(k_) and vs[0] == "in":
                         for v in vs[1]:
-                            table[v] = (tgt, dg)
+                            table[v] = (tgt_fs, dg) if table.get(v, (tgt_fs, dg)) == (tgt_fs, dg) else ("ambiguous", dg)
             ctx.ob("c.supervision", "retry-only-after-slot|%s" % tgt, ok, "a token pass is repeated (attempt %s) although the slot time has not expired: %s" % (tgt, w), f.loc(b))
         want = {"First": ("Second", "No"), "Second": ("Third", "No"), "Third": ("First", "No")}
         ctx.ob("c.supervision", "attempt-table", table == want, "attempt table after an expired slot is %s, required %s (repeat at most twice, then start over with the new successor)" % (table, want), f.loc(0))
